@@ -76,7 +76,45 @@ def run(pm, ctx):
     # ------------------------------------------------------------------ a
     mults = [s for s in W.body if isinstance(s, ast.AugAssign) and isinstance(s.op, ast.Mult) and isinstance(s.target, ast.Name)]
     site = "_path: progress of the outer loop"
-    if len(mults) != 1:
+    closed = None
+    if not mults:
+        # other spellings of the geometric growth
+        setv = [s_ for s_ in W.body if isinstance(s_, ast.Assign) and attr_chain(s_.targets[0]) == "clf.alpha" and isinstance(s_.value, ast.Name)]
+        av = setv[0].value.id if setv else None
+        for s_ in W.body:
+            if av and isinstance(s_, ast.Assign) and len(s_.targets) == 1 and isinstance(s_.targets[0], ast.Name) and s_.targets[0].id == av:
+                v = s_.value
+                if isinstance(v, ast.BinOp) and isinstance(v.op, ast.Mult):
+                    sides = [v.left, v.right]
+                    if any(isinstance(x, ast.Name) and x.id == av for x in sides):
+                        other = [x for x in sides if not (isinstance(x, ast.Name) and x.id == av)][0]
+                        mults = [ast.copy_location(ast.AugAssign(target=ast.Name(id=av, ctx=ast.Store()), op=ast.Mult(), value=other), s_)]
+                        ast.fix_missing_locations(mults[0])
+                        mults[0]._orig = s_
+                    else:
+                        pw = [x for x in sides if isinstance(x, ast.BinOp) and isinstance(x.op, ast.Pow)]
+                        base = [x for x in sides if x not in pw]
+                        if len(pw) == 1 and len(base) == 1 and isinstance(base[0], ast.Name) and isinstance(pw[0].left, ast.Name) and \
+                                isinstance(pw[0].right, ast.Call) and call_name(pw[0].right) == "len":
+                            closed = (s_, av, base[0].id, pw[0].left.id, norm_src(pw[0].right.args[0]))
+    if closed is not None:
+        s_, av, base, mv, hist = closed
+        rd0 = cfg.reaching()
+        outside = lambda ds: frozenset(d for d in ds if d is ENTRY or not _within(d, W))
+        d_alpha = outside(rd0[W].get(av, frozenset()))
+        d_base = outside(rd0[W].get(base, frozenset()))
+        hist_ok = any(isinstance(x, ast.Expr) and norm_src(x.value) == f"{hist}.append({av})" for x in W.body)
+        if d_alpha == d_base and hist_ok:
+            ctx.ok("C07-a", site, f"{av} = {base} * {mv} ** len({hist}) with {base} bound where {av} is")
+        elif not hist_ok:
+            ctx.unrecognised("C07-a", site, f"closed-form growth `{norm_src(s_)}`")
+        else:
+            ctx.violation("C07-a", u.relpath, "_path", norm_src(s_), f"the growth restarts from `{base}`, which is not the value `{av}` has when the loop starts "
+                          f"(definitions differ: a fallback applied to {av} is not seen by {base}): the alphas do not grow by {mv} and the loop may never end",
+                          line=s_.lineno, site=site)
+        avar, mvar = av, mv
+        mults = [s_]
+    elif len(mults) != 1:
         if len(mults) > 1:
             ctx.violation("C07-a", u.relpath, "_path", norm_src(mults[1]), "alpha is multiplied more than once per iteration: the recorded alphas do not grow by exactly alpha_multiplier",
                           line=mults[1].lineno, site=site)
@@ -228,6 +266,36 @@ def run(pm, ctx):
         else:
             ctx.violation("C07-d", u.relpath, "_path", norm_src(g["if"].test), f"the guard for {var} " + ("does not warn" if not g["warns"] else
                           f"assigns {g['default']} but the documented default is {want}"), line=g["if"].lineno, site=site)
+    # the guard replaces exactly the out-of-range values: its test is evaluated on one representative of every cell that the constants
+    # of the test and of the documented range cut out of the real line (a boolean combination of comparisons with constants is
+    # constant on each cell)
+    VALID = {"alpha_multiplier": ("x > 1", lambda x: x > 1), "keep_threshold": ("0 <= x <= 1", lambda x: 0 <= x <= 1), "min_features": ("x > 0", lambda x: x > 0),
+             "max_patience": ("x > 0", lambda x: x > 0)}
+    for var, (doc, valid) in VALID.items():
+        site = f"_path: range test of {var}"
+        g = guards.get(var)
+        if g is None:
+            ctx.unrecognised("C07-d", site, f"no replacing guard for {var}")
+            continue
+        test = g["test"]
+        consts = sorted({float(n.value) for n in ast.walk(test) if isinstance(n, ast.Constant) and isinstance(n.value, (int, float)) and not isinstance(n.value, bool)} | {0.0, 1.0})
+        names = {n.id for n in ast.walk(test) if isinstance(n, ast.Name)}
+        if names - {var} or any(isinstance(n, (ast.Call, ast.Attribute, ast.Subscript)) for n in ast.walk(test)):
+            ctx.unrecognised("C07-d", site, f"the test `{norm_src(test)}` involves more than {var} and constants")
+            continue
+        pts = [consts[0] - 1.0] + consts + [consts[-1] + 1.0] + [(a + b) / 2 for a, b in zip(consts, consts[1:])]
+        wrong = None
+        code = compile(ast.Expression(body=test), "<guard>", "eval")
+        for x in sorted(pts):
+            replaced = bool(eval(code, {"__builtins__": {}}, {var: x}))     # a closed formula over one number: comparisons with constants only
+            if replaced == valid(x):
+                wrong = x
+                break
+        if wrong is None:
+            ctx.ok("C07-d", site, f"replaces exactly the values outside {doc}")
+        else:
+            ctx.violation("C07-d", u.relpath, "_path", norm_src(test), f"the value {var}={wrong:g} is {'inside' if valid(wrong) else 'outside'} the documented range ({doc}) "
+                          f"but `{norm_src(test)}` {'replaces it by the default' if valid(wrong) else 'lets it through'}", line=g["if"].lineno, site=site)
     for cn, mod in (("SparseLinearModel", "gemclus.sparse._linear_sparse"), ("SparseMLPModel", "gemclus.sparse._mlp_sparse")):
         pf = pm.classes[cn].methods["path"]
         pd, qd = func_defaults(pf), defaults
@@ -471,4 +539,6 @@ def controls(pm, tier):
     mut(MS, "                np.copyto(self.W_skip_, best_weights[2])\n                np.copyto(self.b1_, best_weights[3])", "                np.copyto(self.W_skip_, best_weights[3])\n                np.copyto(self.b1_, best_weights[2])", "C07-f", "restore indices swapped")
     mut(LS, "            if not self.dynamic:\n                if self.verbose:\n                    print(\"Restoring best weights\")\n                np.copyto(self.W_, best_weights[0])\n                np.copyto(self.b_, best_weights[1])",
         "            if not self.dynamic:\n                if self.verbose:\n                    print(\"Restoring best weights\")\n                np.copyto(self.W_, best_weights[0])", "C07-f", "bias not restored")
+    mut(S, "    if keep_threshold < 0 or keep_threshold > 1:", "    if not 0 <= keep_threshold < 1:", "C07-d", "legal keep_threshold = 1 replaced")
+    mut(S, "    if max_patience <= 0:", "    if max_patience < 0:", "C07-d", "max_patience = 0 accepted")
     return out
